@@ -135,7 +135,7 @@ theorem C04_end_to_end_traced_partial (c : Trace.Code) (O : Trace.Options) (ext 
 can be walked and mapped within the pass budget, `from_type` returns a schema, serializing any batch of well-typed values in
 scope against it succeeds, and reading everything back returns the batch, normalised.
 `_partial`, exactly because of `hext` (the external chrono parsers return values in range: asked unconditionally by
-`Props.C01.C03_wf'`, irrelevant for traced schemas, which have no temporal column; a theorem at the codec models:
+`Props.C01.C03_wfS'`, irrelevant for traced schemas, which have no temporal column; a theorem at the codec models:
 `C04_end_to_end_codec` below has NO residual hypothesis).  The former premise `hphys` of the conclusion (`Read.physical`: the
 value count of a Dictionary column fits `i64`) is gone: derived from `hcap` (`C04_physical`, the builders' counting invariant).
 Everything else is a decidable condition on type × options (`fragE`, `sized`, `walkable`, `mappable`;
